@@ -71,6 +71,9 @@ type feedOpts struct {
 
 func genFeed(r *Rng, o feedOpts) *feed {
 	f := &feed{tables: map[string]*table{}}
+	// one feed in thirty is wide: dozens of trips, long stop-time lists, shapes of hundreds of points, many exception
+	// rows - sizes at which capacity guesses, fixed-size blocks and pre-sized slices of the parser stop fitting
+	wide := r.P(1, 30)
 	add := func(name string, hdr []string) *table {
 		t := &table{name: name, header: hdr}
 		f.tables[name] = t
@@ -177,6 +180,9 @@ func genFeed(r *Rng, o feedOpts) *feed {
 			cal.rows = append(cal.rows, row)
 		}
 		nEx := r.Intn(4)
+		if wide {
+			nEx = 10 + r.Intn(60)
+		}
 		if !inCal && nEx == 0 {
 			nEx = 1
 		}
@@ -200,6 +206,9 @@ func genFeed(r *Rng, o feedOpts) *feed {
 		id := fmt.Sprintf("SH%d", (i*7)%10)
 		shapeIDs = append(shapeIDs, id)
 		n := 1 + r.Intn(5)
+		if wide {
+			n = 40 + r.Intn(300)
+		}
 		seqs := r.Perm(n + 3)[:n]
 		for _, q := range seqs {
 			sh.rows = append(sh.rows, []string{id, mess(decimalString(r), "", "x"), mess(decimalString(r), ""), mess(fmt.Sprintf("%d", q*3+1), "", "1.5"), r.Pick([]string{"", "1.5", "0"})})
@@ -208,6 +217,9 @@ func genFeed(r *Rng, o feedOpts) *feed {
 	// trips
 	tp := add("trips.txt", []string{"route_id", "service_id", "trip_id", "trip_headsign", "trip_short_name", "direction_id", "block_id", "shape_id", "wheelchair_accessible", "bikes_allowed"})
 	nT := 1 + r.Intn(7)
+	if wide {
+		nT = 15 + r.Intn(25)
+	}
 	var tripIDs []string
 	for i := 0; i < nT; i++ {
 		id := fmt.Sprintf("T%d", i)
@@ -230,6 +242,9 @@ func genFeed(r *Rng, o feedOpts) *feed {
 	stt := add("stop_times.txt", []string{"trip_id", "arrival_time", "departure_time", "stop_id", "stop_sequence", "stop_headsign", "pickup_type", "drop_off_type", "continuous_pickup", "continuous_drop_off", "shape_dist_traveled", "timepoint"})
 	for _, t := range tripIDs {
 		n := r.Intn(6)
+		if wide {
+			n = 8 + r.Intn(40)
+		}
 		seqs := r.Perm(n + 4)[:n]
 		for _, q := range seqs {
 			a, _ := gtfsTimeString(r)
@@ -237,6 +252,9 @@ func genFeed(r *Rng, o feedOpts) *feed {
 			seq := fmt.Sprintf("%d", q)
 			if r.P(1, 3) {
 				seq = fmt.Sprintf("%d", q+9) // so that 9 vs 10 style comparisons occur
+			}
+			if wide {
+				seq = fmt.Sprintf("%d", q*20+r.Intn(20)) // distinct within the trip
 			}
 			stt.rows = append(stt.rows, []string{mess(t, "", "NOPE"), mess(a, "", "bad"), mess(d, ""), mess(r.Pick(stopIDs), "", "NOPE"), mess(seq, "", "x"), pickText(),
 				r.Pick([]string{"0", "1", "2", "3"}), r.Pick([]string{"0", "1", "2", "3"}), r.Pick([]string{"0", "1", "2", "3"}), r.Pick([]string{"0", "1", "2", "3"}),
